@@ -1,7 +1,8 @@
 """C05 translator: relational skeletons of the SQL that the real solve_connected_components
 emits, regenerated from /repo on every run.
 
-The real clustering is run once per variant (with / without threshold) on a 6-node path that
+The real clustering is run once per variant (threshold 0.5 / none / match weight 0 / threshold 0.0)
+on a 6-node path that
 needs two passes of the loop; every CTE handed to DatabaseAPI.sql_pipeline_to_splink_dataframe is
 recorded *before* execution (text straight from the generators in connected_components.py and
 from the f-strings inside solve_connected_components), parsed with sqlglot and reduced to an
@@ -299,7 +300,7 @@ def obligations():
         obs.append(("python_loop", python_loop(), None))
     except Untranslatable as e:
         obs.append(("python_loop", None, str(e)))
-    for variant, thr in (("thr", 0.5), ("nothr", None), ("weight0", "w0")):
+    for variant, thr in (("thr", 0.5), ("nothr", None), ("weight0", "w0"), ("thr0", 0.0)):
         rec, rows = record_run(thr)
         pos = 0
 
@@ -318,7 +319,7 @@ def obligations():
                 sql = take(tname)
                 if variant != "thr" and oname != "edges_with_self_loops":
                     continue
-                label = oname + {"thr": "", "nothr": "/nothr", "weight0": "@weight0"}[variant]
+                label = oname + {"thr": "", "nothr": "/nothr", "weight0": "@weight0", "thr0": "/thr0"}[variant]
                 try:
                     obs.append((label, statement(sql, Roles(None)), None))
                 except Untranslatable as e:
